@@ -207,6 +207,18 @@ def canon_res(r):
     """Panic kinds are only known to the model."""
     return "Panic" if "Panic" in r else r
 
+_REAL_ASSERTS = {"AssertFail1", "AssertFail60", "AssertFail61"}   # assert!/assert_ne! (not debug_assert!)
+
+def debug_only_panic(model_res):
+    """the model's panic kinds that exist only in builds with debug assertions / overflow checks"""
+    m = re.search(r"Panic:(\w+)", model_res)
+    if not m:
+        return False
+    k = m.group(1)
+    if k.startswith("AssertFail"):
+        return k not in _REAL_ASSERTS
+    return k in ("Overflow", "SubUnderflow", "PtrOutOfSlice", "ReadOOB")
+
 def split_trace(t):
     """trace column -> (trace, flags) where flags are the !OOB/!MISALIGNED markers"""
     if " !" in t:
